@@ -138,6 +138,36 @@ check("C09", "model_checking",
       "TLA+ pushdown generator enumerated by TLC; spec->impl replay through the CLI with outcome classification",
       "DESIGN.md section 6 C09")
 
+check("C07", "exploration",
+      "ErgSoup.tla derives syntactically valid programs whose operand holes may be filled with ANY earlier variable (most are ill-typed): literals, operators, calls, lists, records, lambdas, unannotated multi-statement functions, classes, match and if expressions, mutation; in addition corpus files are mutated token-wise and kept when the real parser accepts them. Every program is checked and compiled in-process at -o 0 and -o 3 (all four levels in the thorough tier): the outcome must be success or ordinary diagnostics; a panic, abort, hang, CompilerSystemError or a diagnostic with 'bug of Erg' text is a violation, classified by the call site that produced it (panic file and message class, or internal-error constructor).",
+      "Trusted: TLC; the in-process compile harness (64 MB stack, watchdog; hangs are re-confirmed alone); the raw parser as the definition of 'syntactically valid'.",
+      "TLA+ program-derivation machine simulated by TLC plus corpus mutation; every derived program replayed into the real checker/compiler at every -o level, internal errors classified by call site",
+      "DESIGN.md section 6 C07")
+
+check("C02", "model_checking",
+      "TypedProg.tla keeps, for every binding of a derived program over annotated Nat/Int/Float/Str/Bool/List values, user functions with annotated parameters and method calls, both the static type given by the declared operator table (transcribed from context/initialize/classes.rs) and the value given by Python semantics (BigInt/PyVal); TLC checks TypeSound (value in type) exhaustively for 3-statement programs over literals of both signs: it holds with the entry Int ** Int corrected to Int and is violated by the table as the compiler has it (counterexample (-2) ** 7 : Nat -- known finding). TLC-simulated programs of up to 9 statements plus the exhaustive literal-pair x operator x signature grid are compiled and run: an accepted program must not end with TypeError, AttributeError, NameError or the runtime classes' value-constraint error.",
+      "Trusted: TLC; PyVal/BigInt value semantics (the run-time values of all bindings agree with the specification's on every run); the compile harness and py/verif/pyrun.py. Only programs the real checker accepts are judged.",
+      "TLA+ typed operational semantics model-checked by TLC (TypeSound); derived programs replayed into the real checker, compiler and interpreter",
+      "DESIGN.md section 6 C02")
+
+check("C34", "model_checking",
+      "Same specification as C02 (TypedProg.tla, TypeSound). For every derived program the real checker's typed tree (what `erg --mode typecheck` prints) gives the type it inferred for each top-level binding; the type string is parsed into a membership predicate (classes, singleton/enum types, intervals, length-indexed lists, unions) and evaluated on the value the binding really holds after the compiled module ran (namespace dump of the executed module). A literal index accepted for a list whose reported type carries its length must not raise IndexError; a `Nat can't be negative` error of the runtime wrapper inserted for an inferred Nat is a value outside its type.",
+      "Trusted: TLC; the type-string parser/denotation in py/verif/typedprog.py (unparsed forms are skipped and counted); pyrun's namespace dump.",
+      "TLA+ typed operational semantics model-checked by TLC; per-binding inferred types from the real checker evaluated against recorded run-time values",
+      "DESIGN.md section 6 C34")
+
+check("C05", "model_checking",
+      "TypedProg.tla's Inject action appends to a well-typed derived program exactly one statement with a definite static error (operator unsupported even by the most precise types of the operand values, wrong arity, argument value outside the annotated parameter type, undefined name, missing attribute) at one of five nesting depths (top level, function body, branch inside a function, lambda inside a list, call argument inside a nested block); TLC checks IllTyped (the declared table has no typing for the injected statement) on every such state. The real compiler must reject each program with at least one error and produce no code (the error-free prefix must be accepted, otherwise the case is not judged); a sample goes through `erg run` and must not execute anything.",
+      "Trusted: TLC; the declared operator table in TypedProg.tla (transcribed from classes.rs, incl. Str % Obj and List * Nat); the renderer of nesting contexts in py/verif/typedprog.py.",
+      "TLA+ derivation with a fault-injection action model-checked by TLC (IllTyped); derived programs replayed into the real compiler and CLI",
+      "DESIGN.md section 6 C05")
+
+check("C33", "model_checking",
+      "MatchProg.tla enumerates every match over 11 scrutinee types (Int, Nat, Str, Bool, literal enums, an interval, unions) with up to 3 (quick) / 4 (thorough) literal, class and wildcard arms, defines the run-time meaning (first matching arm for each value of the type's sampled domain) and transcribes the checker's coverage rule; TLC checks RuleSound (rule accepts => every value has an arm) on all 4.8 k / 70 k states. Each match is rendered as a function plus one call per domain value and compiled: if the real checker accepts it, no value may be without an arm (judged by the specification and an independent Python rendering of the arms) and the run must not fail.",
+      "Trusted: TLC; the sampled domains (every literal an arm can mention and its neighbours); py/verif/pyrun.py.",
+      "TLA+ model of match coverage checked by TLC (RuleSound); all derived matches replayed into the real compiler and run on every sampled scrutinee value",
+      "DESIGN.md section 6 C33")
+
 NOT_APPLICABLE = {
     "C16": "static comparison of opcode/magic tables with external ground truth: no state or behaviour for a TLA+ specification to constrain (DESIGN.md section 7)",
     "C27": "data audit of ~150 declaration files against installed interpreters/typeshed: no behaviour to model in TLA+ (DESIGN.md section 7)",
